@@ -190,6 +190,22 @@ def run(ctx):
     tr = next((v for v in walk(mb) if v.get('kind') == 'VarDecl' and v.get('name') == 'thread_rets'), None)
     ctx.require(tr is not None, 'thread_rets not found')
     ctx.check('num_threads' in nf(kids(tr)[-1]), R, 'multi|one-set-per-thread', tr, 'one result set per worker', 'thread_rets is not sized by num_threads')
+    # the slot count must be the thread count the delegate will really start: num_threads is only
+    # ever replaced by the hardware default when it is 0 (the delegate maps 0 to that same default,
+    # so any other adjustment - a clamp to the block count, say - can make the two disagree)
+    ntp = next((p_ for p_ in params_of(M) if p_.get('name') == 'num_threads'), None)
+    ctx.require(ntp is not None, 'parallel_range_blocks_multi: num_threads parameter not found')
+    writes = [x for x in walk(mb) if x.get('kind') in ('BinaryOperator', 'CompoundAssignOperator', 'UnaryOperator') and x.get('opcode') in ('=', '+=', '-=', '*=', '/=', '++', '--', '%=', '&=', '|=')
+              and (ref_decl(x['inner'][0]) or {}).get('id') == ntp['id']]
+    badw = []
+    for w_ in writes:
+        okw = w_.get('opcode') == '=' and any(c.get('kind') == 'CallExpr' and call_name(c) == 'hardware_concurrency' for c in walk(w_['inner'][1])) and strip(w_['inner'][1]).get('kind') == 'CallExpr'
+        rels = [(nf(r_[0]), r_[1], nf(r_[2])) for r_ in [relation(n_, p_) for n_, p_ in atoms(path_facts(w_))] if r_]
+        okw = okw and any((a_ == 'num_threads' and op_ == '==' and b_ == '0') or (a_ == '0' and op_ == '==' and b_ == 'num_threads') for a_, op_, b_ in rels)
+        if not okw:
+            badw.append(w_)
+    ctx.check(not badw, R, 'multi|thread-count-only-defaulted', badw[0] if badw else M, 'num_threads is only replaced by hardware_concurrency() when it is 0',
+              'num_threads is modified by `%s`: the number of result sets can differ from the number of workers parallel_range_blocks starts (0 means "hardware default" there), so thread_rets[thread_num] / thread_rets[0] can be out of range' % (src_text(badw[0], 80) if badw else ''))
     lam = [x for x in walk(mb) if x.get('kind') == 'LambdaExpr']
     okl = len(lam) == 1
     if okl:
